@@ -29,7 +29,7 @@ RULE = ("G-MAP pipelines (all 1-function pipelines; 2-function pipelines with a 
 ASSUMPTIONS = ["the fresh interpreter is a child process started after the writer process has exited (all manager processes of the run are gone)",
                "xarray observations are compared between processes and with the run's values; what the dataset must look like is C19's business",
                "one real multiprocessing manager per writer process (it exits with the writer)"]
-BUDGET = {"quick": 85.0, "thorough": 900.0}
+BUDGET = {"quick": 150.0, "thorough": 1200.0}
 
 
 
